@@ -363,4 +363,132 @@ UNITS += [
          ),
 ]
 
+# ---- PackInfo::from_pack: is this pack needed?  (the accounting the per-pack decision rests on)
+R_GETMUT = [
+    Rw(r"match used_ids\.get_mut\(&\(([^;{}]*?)\)\) \{", r"let vk = (\1); match used_ids.vget(&vk) {", regex=True, count=None, why="BTreeMap::get_mut + match on Option<&mut u8> -> read the entry (vget) ... (the key expression is kept verbatim)"),
+    Rw("Some(count) => {", "Some(mut count) => {", count=None, why="... the entry value by value ..."),
+    Rw("*count -= 1;", "count -= 1; used_ids.vset(&vk, count);", count=None, why="... and write it back (vset) where the code assigns through the &mut"),
+    Rw(r"if \*count (==|!=|<=|>=|<|>) ", r"if count \1 ", regex=True, count=None, why="read through the &mut -> the value just written"),
+    Rw(r"\*count = 0;", "used_ids.vset(&vk, 0);", regex=True, count=None, why="assignment through the &mut -> write back"),
+]
+SCAN_PRE = """
+        pi.used_blobs as int + pi.unused_blobs as int + 1 <= u16::MAX, pi.used_size as int + pi.unused_size as int + blob.location.length as int <= u32::MAX,"""
+UNITS += [
+    Unit(name="from_pack_scan_step", file=PR, kind="block", within="fn from_pack(pack: &PrunePack, used_ids: &mut BTreeMap<(BlobType, BlobId), u8>) -> Self",
+         anchor="@closure:pack.blobs.iter().position(|blob|",
+         block_sig="fn from_pack_scan_step(blob: &IndexBlob, used_ids: &mut VCountMap, pi: &mut PackInfo) -> (r: bool)",
+         block_tail="",
+         functions=["commands::prune::PackInfo::from_pack (closure of the first scan: one blob against the outstanding-copy counts)"],
+         rewrites=R_GETMUT,
+         contract="""
+    requires""" + SCAN_PRE + """
+    ensures
+        final(used_ids)@.dom() == old(used_ids)@.dom(),
+        forall|k: (BlobType, u64)| k != bkey(*blob) && old(used_ids)@.dom().contains(k) ==> final(used_ids)@[k] == old(used_ids)@[k],
+        final(pi).blob_type == old(pi).blob_type,
+        // not needed (no entry or no copy outstanding): counted unused, nothing changes
+        outstanding(old(used_ids)@, bkey(*blob)) == 0 ==> !r && final(used_ids)@ == old(used_ids)@
+            && final(pi).unused_blobs == old(pi).unused_blobs + 1 && final(pi).unused_size == old(pi).unused_size + blob.location.length
+            && final(pi).used_blobs == old(pi).used_blobs && final(pi).used_size == old(pi).used_size,
+        // needed: one outstanding copy is accounted for; the scan stops exactly when it was the last one
+        outstanding(old(used_ids)@, bkey(*blob)) >= 1 ==> outstanding(final(used_ids)@, bkey(*blob)) == outstanding(old(used_ids)@, bkey(*blob)) - 1
+            && r == (outstanding(final(used_ids)@, bkey(*blob)) == 0),
+        r ==> final(pi).used_blobs == old(pi).used_blobs + 1 && final(pi).used_size == old(pi).used_size + blob.location.length
+            && final(pi).unused_blobs == old(pi).unused_blobs && final(pi).unused_size == old(pi).unused_size,
+        !r ==> final(pi).unused_blobs == old(pi).unused_blobs + 1 && final(pi).unused_size == old(pi).unused_size + blob.location.length
+            && final(pi).used_blobs == old(pi).used_blobs && final(pi).used_size == old(pi).used_size,
+"""),
+    Unit(name="from_pack", file=PR, anchor="fn from_pack(pack: &PrunePack, used_ids: &mut BTreeMap<(BlobType, BlobId), u8>) -> Self", within="impl PackInfo {", ret_name="pi_r",
+         wrap_open="impl PackInfo {", wrap_close="}",
+         functions=["commands::prune::PackInfo::from_pack"],
+         rewrites=[
+             Rw("used_ids: &mut BTreeMap<(BlobType, BlobId), u8>", "used_ids: &mut VCountMap", sig=True, why="BTreeMap -> ghost map stub"),
+             Rw(r"let first_needed = pack\.blobs\.iter\(\)\.position\(\|blob\| \{.*?\n        \}\);",
+                "let mut first_needed: Option<usize> = None; let mut vi: usize = 0; while vi < pack.blobs.len() { if from_pack_scan_step(&pack.blobs[vi], used_ids, &mut pi) { first_needed = Some(vi); break; } vi += 1; }",
+                regex=True, why="OUTLINE + definition of Iterator::position: the closure is the block unit from_pack_scan_step (same source lines), called in index order until it returns true"),
+             Rw("for blob in &pack.blobs[..first_needed] {", "for vj in it2: 0..first_needed { let blob = &pack.blobs[vj];", why="loop over a sub-slice -> index loop over the same range"),
+             Rw("for blob in &pack.blobs[first_needed + 1..] {", "for vj in it3: (first_needed + 1)..pack.blobs.len() { let blob = &pack.blobs[vj];", why="loop over a sub-slice -> index loop over the same range"),
+         ] + R_GETMUT,
+         contract="""
+    requires
+        // ASSUMED about the index entries of one pack (u16 / u32 counters of PackInfo): fewer than 65 536 blobs, total length < 4 GiB
+        pack.blobs@.len() < u16::MAX, lens(pack.blobs@, 0, pack.blobs@.len() as int) <= u32::MAX,
+    ensures
+        /*@every_blob_counted_once*/ pi_r.used_blobs + pi_r.unused_blobs == pack.blobs@.len(),
+        /*@sizes_add_up*/ pi_r.used_size + pi_r.unused_size == lens(pack.blobs@, 0, pack.blobs@.len() as int),
+        final(used_ids)@.dom() == old(used_ids)@.dom(),
+        /*@blobs_of_other_packs_untouched*/ forall|k: (BlobType, u64)| old(used_ids)@.dom().contains(k) && !(exists|i: int| 0 <= i < pack.blobs@.len() && bkey(#[trigger] pack.blobs@[i]) == k)
+            ==> final(used_ids)@[k] == old(used_ids)@[k],
+        // SAFETY: a pack is counted as unused only if every needed blob in it still has a copy outstanding in a pack seen later
+        /*@unused_pack_holds_no_last_copy*/ pi_r.used_blobs == 0 ==> forall|i: int| 0 <= i < pack.blobs@.len() && outstanding(old(used_ids)@, bkey(#[trigger] pack.blobs@[i])) >= 1
+            ==> outstanding(final(used_ids)@, bkey(pack.blobs@[i])) >= 1,
+        // a used pack settles every needed blob it holds: no later pack is made the keeper of the same blob
+        /*@used_pack_settles_its_blobs*/ pi_r.used_blobs >= 1 ==> forall|i: int| 0 <= i < pack.blobs@.len() ==> outstanding(final(used_ids)@, bkey(#[trigger] pack.blobs@[i])) == 0,
+""",
+         loops={1: """
+            invariant_except_break
+                first_needed is None,
+                pi.used_blobs == 0, pi.used_size == 0, pi.unused_blobs == vi, pi.unused_size == lens(pack.blobs@, 0, vi as int),
+                forall|k: (BlobType, u64)| outstanding(old(used_ids)@, k) >= 1 ==> outstanding(used_ids@, k) >= 1,
+            invariant
+                vi <= pack.blobs@.len(), pack.blobs@.len() < u16::MAX, lens(pack.blobs@, 0, pack.blobs@.len() as int) <= u32::MAX,
+                used_ids@.dom() == old(used_ids)@.dom(),
+                forall|k: (BlobType, u64)| old(used_ids)@.dom().contains(k) && !(exists|i: int| 0 <= i < pack.blobs@.len() && bkey(#[trigger] pack.blobs@[i]) == k) ==> used_ids@[k] == old(used_ids)@[k],
+                forall|k: (BlobType, u64)| outstanding(old(used_ids)@, k) == 0 ==> outstanding(used_ids@, k) == 0,
+            ensures
+                pack.blobs@.len() < u16::MAX, lens(pack.blobs@, 0, pack.blobs@.len() as int) <= u32::MAX,
+                used_ids@.dom() == old(used_ids)@.dom(),
+                forall|k: (BlobType, u64)| old(used_ids)@.dom().contains(k) && !(exists|i: int| 0 <= i < pack.blobs@.len() && bkey(#[trigger] pack.blobs@[i]) == k) ==> used_ids@[k] == old(used_ids)@[k],
+                first_needed is None ==> vi == pack.blobs@.len() && pi.used_blobs == 0 && pi.used_size == 0 && pi.unused_blobs == vi && pi.unused_size == lens(pack.blobs@, 0, vi as int)
+                    && forall|k: (BlobType, u64)| outstanding(old(used_ids)@, k) >= 1 ==> outstanding(used_ids@, k) >= 1,
+                first_needed matches Some(f) ==> f == vi && vi < pack.blobs@.len() && pi.used_blobs == 1 && pi.used_size == pack.blobs@[f as int].location.length && pi.unused_blobs == f
+                    && pi.unused_size == lens(pack.blobs@, 0, f as int) && outstanding(used_ids@, bkey(pack.blobs@[f as int])) == 0,
+            decreases pack.blobs@.len() - vi,
+""", 2: """
+                invariant
+                    first_needed < pack.blobs@.len() < u16::MAX, lens(pack.blobs@, 0, pack.blobs@.len() as int) <= u32::MAX,
+                    used_ids@.dom() == old(used_ids)@.dom(),
+                    forall|k: (BlobType, u64)| old(used_ids)@.dom().contains(k) && !(exists|i: int| 0 <= i < pack.blobs@.len() && bkey(#[trigger] pack.blobs@[i]) == k) ==> used_ids@[k] == old(used_ids)@[k],
+                    pi.used_blobs + pi.unused_blobs == first_needed + 1, pi.used_blobs >= 1, pi.unused_blobs >= first_needed - vj,
+                    pi.used_size + pi.unused_size == lens(pack.blobs@, 0, first_needed as int + 1), pi.unused_size >= lens(pack.blobs@, vj as int, first_needed as int),
+                    outstanding(used_ids@, bkey(pack.blobs@[first_needed as int])) == 0,
+                    forall|i: int| 0 <= i < vj ==> outstanding(used_ids@, bkey(#[trigger] pack.blobs@[i])) == 0,
+""", 3: """
+                invariant
+                    first_needed < pack.blobs@.len() < u16::MAX, lens(pack.blobs@, 0, pack.blobs@.len() as int) <= u32::MAX,
+                    used_ids@.dom() == old(used_ids)@.dom(),
+                    forall|k: (BlobType, u64)| old(used_ids)@.dom().contains(k) && !(exists|i: int| 0 <= i < pack.blobs@.len() && bkey(#[trigger] pack.blobs@[i]) == k) ==> used_ids@[k] == old(used_ids)@[k],
+                    pi.used_blobs + pi.unused_blobs == vj, pi.used_blobs >= 1,
+                    pi.used_size + pi.unused_size == lens(pack.blobs@, 0, vj as int),
+                    forall|i: int| 0 <= i < vj ==> outstanding(used_ids@, bkey(#[trigger] pack.blobs@[i])) == 0,
+"""},
+         hints=[("loop_start", "1", "            proof { lemma_lens_push(pack.blobs@, 0, vi as int); lemma_lens_mono(pack.blobs@, 0, vi as int + 1, pack.blobs@.len() as int); }"),
+                ("loop_start", "2", "                proof { lemma_lens_mono(pack.blobs@, vj as int + 1, first_needed as int, first_needed as int); lemma_lens_mono(pack.blobs@, 0, first_needed as int + 1, pack.blobs@.len() as int); }"),
+                ("loop_start", "3", "                proof { lemma_lens_push(pack.blobs@, 0, vj as int); lemma_lens_mono(pack.blobs@, 0, vj as int + 1, pack.blobs@.len() as int); }"),
+                ("before", "for vj in it2: 0..first_needed", "            proof { lemma_lens_push(pack.blobs@, 0, first_needed as int); lemma_lens_mono(pack.blobs@, 0, first_needed as int, first_needed as int); }"),
+         ],
+         ),
+]
+
+UNITS += [
+    # count_used_blobs: body of its loop (the loop header is an iterator adapter chain over all index entries)
+    Unit(name="count_used_blob", file=PR, kind="block", within="fn count_used_blobs(&mut self)",
+         anchor="if let Some(count) = self.used_ids.get_mut(", block_end="@matching_brace",
+         block_sig="fn count_used_blob(this: &mut VPlan3, blob: &IndexBlob)",
+         block_tail="",
+         functions=["commands::prune::PrunePlan::count_used_blobs (loop body: one index entry)"],
+         rewrites=[
+             Rw(r"if let Some\(count\) = self\.used_ids\.get_mut\(&\(([^;{}]*?)\)\) \{", r"let vk = (\1); if let Some(count) = this.used_ids.vget(&vk) {", regex=True, why="BTreeMap::get_mut -> read the entry (key expression kept verbatim) ..."),
+             Rw(r"\*count = count\.saturating_add\((\d+)\);", r"this.used_ids.vset(&vk, vsat_add(count, \1));", regex=True, why="... and write back; u8::saturating_add -> stub with its definition"),
+         ],
+         contract="""
+    ensures
+        final(this).used_ids@.dom() == old(this).used_ids@.dom(),
+        // one more copy of THIS typed blob is known (counted up to 255); a blob nobody needs stays out
+        /*@copy_counted_for_its_typed_key*/ old(this).used_ids@.dom().contains(bkey(*blob)) ==>
+            final(this).used_ids@[bkey(*blob)] == (if old(this).used_ids@[bkey(*blob)] == 255 { 255u8 } else { (old(this).used_ids@[bkey(*blob)] + 1) as u8 }),
+        /*@other_blobs_unchanged*/ forall|k: (BlobType, u64)| k != bkey(*blob) && old(this).used_ids@.dom().contains(k) ==> final(this).used_ids@[k] == old(this).used_ids@[k],
+"""),
+]
+
 META = {"not_covered": []}
